@@ -2,7 +2,7 @@
 //!
 //! Scenario (vocabulary of specs/Sse.tla):
 //!   {"script": ["P"|"Y",..], "msgs": [[token,..],..], "hist": [action,..] | [], "seed": n,
-//!    "pol": {"delay": [d,..], "spur": [s,..]}, "wmode": 0|1|2, "via": "direct"|"router"}
+//!    "pol": {"delay": [d,..], "spur": [s,..]}, "wmode": 0|1|2, "via": "direct"|"router"|"from"|"router-from"}
 //! `script` is the producer's program ("P" push the next message through the real queue handle, "Y" return Pending
 //! until the harness fires the awaited event; the end of the script is the end of the future), `hist` the schedule
 //! TLC generated (sequence of Sse action names: the harness performs the environment actions Fire / Spurious exactly
@@ -130,7 +130,9 @@ type Shared = Arc<Mutex<Ctl>>;
 
 // ------------------------------------------------------------------ the scripted producer future
 
-struct Producer { ctl: Shared, handle: ohkami::sse::handle::Stream<String>, script: Vec<u8>, ip: usize, msgs: Vec<String>, next_msg: usize }
+/// the queue handle as the handler gets it: from `DataStream::new` or from `ohkami_lib::stream::queue`
+enum Handle { Sse(ohkami::sse::handle::Stream<String>), Raw(ohkami_lib::stream::impls::Queue<String>) }
+struct Producer { ctl: Shared, handle: Handle, script: Vec<u8>, ip: usize, msgs: Vec<String>, next_msg: usize }
 impl Future for Producer {
     type Output = ();
     fn poll(mut self: Pin<&mut Self>, cx: &mut Context<'_>) -> Poll<()> {
@@ -150,7 +152,7 @@ impl Future for Producer {
             match this.script.get(this.ip).copied() {
                 Some(b'P') => {
                     let m = this.msgs[this.next_msg].clone(); this.next_msg += 1; this.ip += 1;
-                    this.handle.send(m);                       // the real queue handle
+                    match &mut this.handle { Handle::Sse(h) => h.send(m), Handle::Raw(q) => q.push(m) }   // the real queue handle
                     c.code("PPush");
                 }
                 Some(_) => {
@@ -195,8 +197,13 @@ impl tokio::io::AsyncWrite for Conn {
 
 // ------------------------------------------------------------------ run
 
-fn make_stream(ctl: Shared, script: Vec<u8>, msgs: Vec<String>) -> DataStream {
-    DataStream::new(move |handle| Producer { ctl, handle, script, ip: 0, msgs, next_msg: 0 })
+fn make_stream(ctl: Shared, script: Vec<u8>, msgs: Vec<String>, from_queue: bool) -> DataStream {
+    if from_queue {
+        // `DataStream::from(stream)` over `ohkami_lib::stream::queue`: the same QueueStream behind the `map(Data::encode)` adapter
+        DataStream::from(ohkami_lib::stream::queue(move |q| Producer { ctl, handle: Handle::Raw(q), script, ip: 0, msgs, next_msg: 0 }))
+    } else {
+        DataStream::new(move |h| Producer { ctl, handle: Handle::Sse(h), script, ip: 0, msgs, next_msg: 0 })
+    }
 }
 
 fn chunk_sizes(raw: &[u8]) -> Vec<usize> {
@@ -240,7 +247,8 @@ pub fn run(scn: &Value) -> Value {
     let delays: Vec<i64> = arr(&scn["pol"]["delay"]).iter().map(util::i).collect();
     let spurs: Vec<i64> = arr(&scn["pol"]["spur"]).iter().map(util::i).collect();
     let wmode = util::i(&scn["wmode"]);
-    let via = if s(&scn["via"]) == "router" { "router" } else { "direct" };
+    let via = match s(&scn["via"]) { "router" => "router", "from" => "from", "router-from" => "router-from", _ => "direct" };
+    let from_queue = via.ends_with("from");
 
     let flag = Arc::new(Flag(AtomicBool::new(false)));
     let waker = Waker::from(flag.clone());
@@ -250,9 +258,9 @@ pub fn run(scn: &Value) -> Value {
     }));
 
     // the response, through the public API
-    let res: Response = if via == "router" {
+    let res: Response = if via.starts_with("router") {
         let (c2, sc2, m2) = (ctl.clone(), script.clone(), msgs.clone());
-        let o = Ohkami::new(("/sse".GET(move || { let (c, sc, m) = (c2.clone(), sc2.clone(), m2.clone()); async move { make_stream(c, sc, m) } }),));
+        let o = Ohkami::new(("/sse".GET(move || { let (c, sc, m) = (c2.clone(), sc2.clone(), m2.clone()); async move { make_stream(c, sc, m, from_queue) } }),));
         let router = v::finalize(o);
         util::block_on(async {
             let mut req = v::VRequest::new();
@@ -260,7 +268,7 @@ pub fn run(scn: &Value) -> Value {
             match req.read(&mut rd).await { Ok(Some(())) => req.handle(&router).await, Ok(None) => Response::new(Status::Gone), Err(e) => e }
         })
     } else {
-        let mut r = make_stream(ctl.clone(), script.clone(), msgs.clone()).into_response();
+        let mut r = make_stream(ctl.clone(), script.clone(), msgs.clone(), from_queue).into_response();
         v::complete(&mut r);
         r
     };
@@ -357,5 +365,5 @@ pub fn gen(rng: &mut Rng, i: usize) -> Value {
     let delay: Vec<i64> = (0..ny).map(|_| *rng.pick(&[-1i64, -1, 0, 0, 1, 2, 3, 5])).collect();
     let spur: Vec<i64> = (0..ny).map(|_| *rng.pick(&[0i64, 0, 0, 1, 2])).collect();
     json!({"id": i, "script": script, "msgs": msgs, "hist": [], "seed": rng.below(1 << 30) as i64,
-           "pol": {"delay": delay, "spur": spur}, "wmode": *rng.pick(&[0i64, 0, 1, 2]), "via": if rng.chance(1, 3) { "router" } else { "direct" }})
+           "pol": {"delay": delay, "spur": spur}, "wmode": *rng.pick(&[0i64, 0, 1, 2]), "via": *rng.pick(&["direct", "direct", "router", "from", "router-from"])})
 }
